@@ -300,6 +300,9 @@ func (df *DataFile) readToBuf(blockID uint32, offset uint32, buf *bytebufferpool
 	for {
 		// 当前 block 绝对偏移量
 		off := int64(blockID) * blockSize
+		if off >= fileSize {
+			return io.EOF
+		}
 		// 当前 block 实际大小
 		size := uint32(min(fileSize-off, blockSize))
 
@@ -387,6 +390,10 @@ func (reader *DataReader) next() ([]byte, *DataPos, error) {
 	for {
 		// 当前 block 绝对偏移量
 		off := int64(reader.blockID) * blockSize
+		// 文件恰好在 block 末尾的填充区之前结束时, 下一个 block 不存在
+		if off >= fileSize {
+			return nil, nil, io.EOF
+		}
 		// 当前 block 实际大小
 		size := uint32(min(fileSize-off, blockSize))
 
